@@ -2,7 +2,7 @@
 PROP = "C01"
 LEVEL = "exploration"
 ENGINE = "pyvc+bounded"
-HARNESS_MODULES = []
+HARNESS_MODULES = ["contracts.c01_z3_convert"]
 
 
 def bounded(tier, seed, rep):
